@@ -15,18 +15,34 @@ from pbt.core import clause, enum_clause, HarnessError, tier
 PROPERTY = "C14"
 CLAUSES = []
 ASSUMPTIONS = [
-    "records: finite float64 (array level also integer-dtype and list variants), |a| <= 1e9; dt, target in about [1e-5, 30] with "
-    "max(dt/target, target/dt) <= 80 (interpolation) / 30 (Fourier), output length <= 130 000 samples",
+    "records: finite float64 (array level also int64 and list / view / read-only variants; narrow integer and single-precision records "
+    "are handled centrally, not here), |a| <= 1e9; dt, target in about [4e-8, 2.5e4] with max(dt/target, target/dt) <= 2500 (ordinary "
+    "families <= 80 interpolation / 30 Fourier, 'wide' family beyond), refined output <= 130 000 (60 000 Fourier) samples in the random clauses",
     "duration precondition of the quantifier, constructed in exact rational arithmetic: (npts-1)*dt >= 2*max(dt, target)",
     "all step / ratio / length comparisons are evaluated in exact rational arithmetic on the doubles that were passed and "
     "returned (fractions.Fraction), so the only tolerances are the stated ones: 'does not exceed the target' allows 4 eps "
     "relative (the quotient dt/target, its reciprocal and the division dt/factor each round once: 2 eps suffices); "
-    "'integer ratio' = within 1e-9 of an integer; which of refinement / decimation / no change applies, and the integer k, are "
-    "read from the RETURNED step, not recomputed from the target (the statement does not require the largest admissible step)",
-    "'covered duration' = number of samples * step; 'changes by less than two steps' is |len(out)*new_dt - npts*dt| < "
-    "2*max(dt, new_dt); a difference within 1e-9 (relative) of the limit is ambiguous (margin filter) and accepted - it occurs "
-    "when fl(1/k)*npts lands just below an even integer, e.g. k=49, npts=392, even=True gives 6 instead of 8 samples",
-    "refinement by k: out[j*k] == record[j] bitwise for every j with j*k < len(out) (np.interp returns the node value at a node)",
+    "'integer ratio' = within 16 eps (relative) of an integer: the returned double is fl(dt/k), fl(dt*k) or fl(dt/fl(1/k)), at most 1.5 eps "
+    "off; which of refinement / decimation / no change applies, and the integer k, are read from the RETURNED step, not recomputed "
+    "from the target: the statement does not say that the returned step is the largest admissible one (a smaller step, or not "
+    "decimating at all, satisfies every sentence), so the reference factor (ceil / reciprocal floor of the exact quotient) is NOT "
+    "asserted; the request is recorded (req=refine / req=decimate / req=same) and health floors on 'req=...,k==ref' declare a run "
+    "unhealthy (exit 2, not a violation) when the library stops following the request, because the generator's constructions "
+    "(lengths k*q, band limits, k strata) would then no longer produce what they were built to produce",
+    "'covered duration' counted with the integer ratio k of the statement (the returned double is that ratio rounded), in integer "
+    "arithmetic: refinement / unchanged step |len(out) - k*npts| < 2k, decimation |len(out)*k - npts| < 2k; nothing is ambiguous; a loss "
+    "of exactly two steps is a violation (k = 49, npts = 392, even=True: 6 instead of 8 samples, the defect repaired by ea0e54c)",
+    "the evenness and duration clauses are read as applying to BOTH resamplers: the quantifier says 'even in {True, False}, array-level "
+    "and object-level variants' for the whole property and resample_to_approx_dt documents `even` as forcing an even number of samples "
+    "(coordinator's decision).  The narrower reading - the Fourier sentence promises only 'the same step rule' and exact reproduction, so a "
+    "Fourier resampler that ignores `even` to keep the new grid commensurate (one of the recorded repairs of C14-KF1) would satisfy the "
+    "statement - is noted and NOT adopted; under it `even=True but N samples returned` on resample_to_approx_dt would be a false alarm",
+    "output dtype: any real numeric kind (f / i / u); array-level and object-level interpolation are each judged by the oracle on "
+    "their own output, their bitwise agreement is only recorded (class obj==array)",
+    "refinement by k >= 2: ALL original samples reappear: len(out) >= (npts-1)*k+1 and out[j*k] == record[j] bitwise for every j < npts "
+    "(np.interp returns the node value at a node; an even length requested for an odd k*npts costs one sample AFTER the last "
+    "original); unchanged step: out == record[:len(out)]; the samples BETWEEN two originals are only held to the input's global range: "
+    "the statement is silent on how they are filled (zero-order hold instead of linear interpolation satisfies every sentence)",
     "decimation by k: out[i] equals record[i*k] to 4*eps*(npts*range + max|a|): the library's grid i/fl(1/k) can miss the integer "
     "i*k by 2 ulp, which moves the interpolated value by |slope|*i*k*2.3e-16 (DESIGN: 'to 1e-9*range'; this bound is tighter); "
     "an output sample whose instant i*k*dt lies beyond the last input sample must equal (==) an input sample later than the "
@@ -59,11 +75,18 @@ ASSUMPTIONS = [
 EPS = np.finfo(float).eps
 LD = np.longdouble
 TWO_PI = 2 * np.arccos(LD(-1))
-KMAX_INTERP = 80
-KMAX_FOURIER = 30
+KMAX_INTERP = 80      # ordinary (dt, target) families of interp-rule
+KMAX_FOURIER = 30     # ... of fourier-rule
+KMAX_WIDE = 2500      # the 'wide' family goes on from there: a 3-sample record refined x2000 costs 6000 samples
 OUT_CAP = 130000
 NINE = Fraction(1, 10 ** 9)
 STEP_SLACK = 1 + Fraction(4 * EPS)
+# 'ratio is an integer': the returned step is a double, fl(dt/k), fl(dt*k) or fl(dt/fl(1/k)) (one to three roundings, <= 1.5 eps relative);
+# 16 eps leaves room for any other reasonable way of forming it (duration / count, k * dt ...)
+RATIO_TOL = Fraction(16 * EPS)
+# integer factors whose reciprocal is not exact in double precision in the sense that fl(1/k)*k != 1 (49, 98, 103, 107, 161 ...): a
+# new length formed as fl(1/k)*npts lands just below the whole number npts/k (property of the doubles, not of the library)
+INEXACT_RECIP = [k for k in range(2, KMAX_WIDE + 1) if (1.0 / k) * k != 1.0]
 
 
 # ---------------------------------------------------------------------------
@@ -105,7 +128,8 @@ def _nudge(x, n):
 
 
 # strategies are built once (building / validating them inside a composite costs more than the check itself)
-_FAM = st.sampled_from(["indep"] * 3 + ["ratio"] * 3 + ["comm"] * 3 + ["dec3"] * 2 + ["t01", "ulp", "equal"])
+_FAM = st.sampled_from(["indep"] * 3 + ["ratio"] * 3 + ["comm"] * 3 + ["dec3"] * 2 + ["t01", "ulp", "equal"] +
+                       ["wide"] * 2 + ["nudge"] * 3 + ["inexact"])
 _DTS = gen.dts(1e-3, 1.0)
 _BASE = gen.dts(1e-3, 0.5)
 _BOOL = st.booleans()
@@ -115,20 +139,38 @@ _LO100 = st.integers(1, 100)
 _LO999 = st.one_of(st.integers(1, 60), st.integers(1, 999))
 _DT01 = st.one_of(st.sampled_from([d for d in gen.REPO_DTS if d <= 0.2]), gen.log_uniform(1e-3, 0.3))
 _PER_KMAX = {}
+_WIDE_BASE = gen.log_uniform(1e-4, 10.0)
+_NUDGE_EXP = st.floats(-15.0, -4.0, allow_nan=False)
+_SIGN = st.sampled_from([-1.0, 1.0])
+_INEXACT_K = st.one_of(st.sampled_from([49, 98, 103, 107]), st.sampled_from(INEXACT_RECIP))
+_DYADIC_BASE = st.integers(3, 9).map(lambda j: 2.0 ** -j)
+_FRAC = st.floats(0.02, 0.98, allow_nan=False)
 
 
 def _kmax_strategies(kmax):
     if kmax not in _PER_KMAX:
-        _PER_KMAX[kmax] = (gen.log_uniform(1e-3, kmax - 1.0), gen.log_uniform(1e-3, kmax - 2.0), st.integers(2, kmax))
+        _PER_KMAX[kmax] = (gen.log_uniform(1e-3, kmax - 1.0), gen.log_uniform(1e-3, kmax - 2.0), st.integers(2, kmax),
+                           gen.log_uniform(kmax + 1, KMAX_WIDE).map(lambda v: int(v)))
     return _PER_KMAX[kmax]
+
+
+def _comm_pair(base, k, how):
+    if how == "dt/k":
+        return base, base / k
+    if how == "t*k":
+        return base * k, base
+    if how == "dt*k":
+        return base, base * k
+    return base / k, base
 
 
 @st.composite
 def _pairs(draw, kmax):
     """(dt, target) pairs: independent, generic ratio, commensurate (float product / quotient), thousandths, default target,
     neighbours of an integer quotient, equal."""
-    r_refine, r_decim, k_int = _kmax_strategies(kmax)
+    r_refine, r_decim, k_int, k_wide = _kmax_strategies(kmax)
     fam = draw(_FAM)
+    limit = kmax
     if fam == "indep":
         dt = draw(_DTS)
         target = draw(_DTS)
@@ -140,16 +182,7 @@ def _pairs(draw, kmax):
             target = dt * (2.0 + draw(r_decim))    # decimation, target/dt in (2, kmax]
     elif fam in ("comm", "ulp"):
         k = draw(k_int)
-        base = draw(_BASE)
-        how = draw(_HOW)
-        if how == "dt/k":
-            dt, target = base, base / k
-        elif how == "t*k":
-            dt, target = base * k, base
-        elif how == "dt*k":
-            dt, target = base, base * k
-        else:
-            dt, target = base / k, base
+        dt, target = _comm_pair(draw(_BASE), k, draw(_HOW))
         if fam == "ulp":
             target = _nudge(target, draw(_ULPS))
     elif fam == "dec3":
@@ -163,21 +196,76 @@ def _pairs(draw, kmax):
     elif fam == "t01":
         target = 0.01
         dt = draw(_DT01)
+    elif fam == "wide":
+        # ratios beyond the ordinary families (x81 / x31 .. x2500), commensurate or generic, steps from 4e-8 to 2.5e4
+        limit = KMAX_WIDE + 1
+        k = draw(k_wide)
+        base = draw(_WIDE_BASE)
+        if draw(_BOOL):
+            dt, target = _comm_pair(base, k, draw(_HOW))
+        elif draw(_BOOL):
+            dt, target = base, base / (k - 1 + draw(_FRAC))
+        else:
+            dt, target = base, base * (k + draw(_FRAC))
+    elif fam == "nudge":
+        # a commensurate target moved by a relative amount 1e-15 .. 1e-4 to either side: the quotient is NOT an integer, by a
+        # margin that a tolerance-style rounding of the factor (ceil(q - 1e-9), floor(q + 1e-9), round(q, 6)) would swallow
+        wide = draw(st.integers(0, 4)) == 0
+        limit = KMAX_WIDE + 1 if wide else kmax + 1
+        k = draw(k_wide) if wide else draw(k_int)
+        dt, target = _comm_pair(draw(_WIDE_BASE if wide else _BASE), k, draw(_HOW))
+        target = target * (1.0 + draw(_SIGN) * 10.0 ** draw(_NUDGE_EXP))
+    elif fam == "inexact":
+        # decimation by a factor whose reciprocal is inexact in double precision (see INEXACT_RECIP)
+        limit = KMAX_WIDE + 1
+        k = draw(_INEXACT_K)
+        base = draw(_DYADIC_BASE) if draw(_BOOL) else draw(_BASE)
+        dt, target = base, base * k
     else:
         dt = draw(_DTS)
         target = dt
-    assume(Fraction(dt) <= kmax * Fraction(target) and Fraction(target) <= kmax * Fraction(dt))
+    assume(Fraction(dt) <= limit * Fraction(target) and Fraction(target) <= limit * Fraction(dt))
     return {"dt": float(dt), "target": float(target), "fam": fam}
 
 
-FORMS = ["pos", "kw", "defaults"]
+FORMS = ["pos", "kw", "defaults", "mixed"]
 _FORM = st.sampled_from(FORMS)
+_DTAS = st.sampled_from(["float", "float", "float", "np", "int"])
+_OBJVAR = st.sampled_from([None, None, "label", "smooth", "rt"])
+
+
+def _dt_arg(ctx, dt, how):
+    """The same step as a python float, a numpy scalar or (when it is a whole number) a python int."""
+    if how == "np":
+        ctx.cls("dt=np.float64")
+        return np.float64(dt)
+    if how == "int" and float(dt) == int(dt):
+        ctx.cls("dt=int")
+        return int(dt)
+    return dt
+
+
+def _make_asig(ctx, values, dt, var):
+    """An AccSignal holding the record, optionally carrying non-default settings that resampling has no business with."""
+    if var == "label":
+        ctx.cls("obj=labelled")
+        return ctx.lib(eqsig.AccSignal, values, dt, label="rec-7")
+    if var == "smooth":
+        ctx.cls("obj=smooth-range")
+        return ctx.lib(eqsig.AccSignal, values, dt, smooth_freq_range=(0.5, 10.0))
+    if var == "rt":
+        ctx.cls("obj=response-times")
+        return ctx.lib(eqsig.AccSignal, values, dt, response_times=[0.2, 1.0])
+    return ctx.lib(eqsig.AccSignal, values, dt)
 _PAIRS_INTERP = _pairs(KMAX_INTERP)
 _PAIRS_FOURIER = _pairs(KMAX_FOURIER)
 
 
 def _call(ctx, fn, lead, target, even, form):
-    """Positional / keyword / defaults-omitted call of fn(*lead, target_dt=0.01, even=True)."""
+    """Positional / keyword / defaults-omitted / mixed (target positional, even by keyword: the spelling of the consumer
+    AccSignal.gen_response_spectrum) call of fn(*lead, target_dt=0.01, even=True)."""
+    if form == "mixed":
+        return ctx.lib(fn, *(tuple(lead) + (target,)), even=even)
     if form == "pos":
         return ctx.lib(fn, *(tuple(lead) + (target, even)))
     if form == "kw":
@@ -198,8 +286,13 @@ def _call(ctx, fn, lead, target, even, form):
 # shared oracle: step, ratio, evenness and length rules
 
 
-def _step_rules(ctx, dt, target, new_dt, npts, n_out, even, what):
-    """Returns (mode, k) read from the returned step: mode in {'refine', 'decimate', 'same'}."""
+def _step_rules(ctx, dt, target, new_dt, npts, n_out, even, what, lengths=True):
+    """Returns (mode, k) read from the returned step: mode in {'refine', 'decimate', 'same'}.
+
+    Step rule (both sentences of the statement): step <= target, ratio to dt an integer or the reciprocal of one.
+    lengths=True (every clause of this module): 'the length is even when requested' and 'the covered duration changes by less than
+    two steps', for the interpolation functions and for the Fourier resampler alike (reading of the quantifier, see ASSUMPTIONS).
+    lengths=False records the two as class labels only (not used; kept for the narrower reading of the Fourier sentence)."""
     ctx.check(np.ndim(new_dt) == 0 and isinstance(new_dt, (float, int, np.floating, np.integer)),
               "%s: returned step is not a real scalar: %r" % (what, new_dt))
     new_dt = float(new_dt)
@@ -214,30 +307,47 @@ def _step_rules(ctx, dt, target, new_dt, npts, n_out, even, what):
         r = fn / fd
         mode = "decimate"
     k = int(round(r))
-    ctx.check(k >= 1 and abs(r - k) <= NINE,
-              "%s: returned step %r is neither dt/k nor dt*k for an integer k (dt=%r, ratio %.12g)" % (what, new_dt, dt, float(r)))
+    ctx.check(k >= 1 and abs(r - k) <= RATIO_TOL * k,
+              "%s: returned step %r is neither dt/k nor dt*k for an integer k (dt=%r, ratio %.17g)" % (what, new_dt, dt, float(r)))
     if k == 1:
         mode = "same"
-    if even:
-        ctx.check(n_out % 2 == 0, "%s: even=True but %d samples returned (npts=%d, dt=%r, target=%r)" % (what, n_out, npts, dt, target))
-    diff = abs(n_out * fn - npts * fd)
-    lim = 2 * max(fd, fn)
-    if diff >= lim * (1 + NINE):
-        ctx.fail("%s: covered duration changes by %.12g steps (>= 2): %d samples at %r -> %d samples at %r" % (
-            what, float(diff / max(fd, fn)), npts, dt, n_out, new_dt))
-    if diff > lim * (1 - NINE):
-        ctx.amb()
-        ctx.cls("length-amb")
+    # evenness and duration.  The duration is counted with the integer ratio the statement speaks of (the returned double is that
+    # ratio rounded): in units of the finer of the two steps the record covers k*npts (refinement) or npts (decimation), the output
+    # n_out resp. n_out*k, and two of the coarser steps are 2k.  Pure integer arithmetic: nothing is ambiguous, and a loss of EXACTLY
+    # two steps (npts = 392, k = 49: 6 samples instead of 8) is a violation of 'less than two steps'.
+    odd_when_even = bool(even) and n_out % 2 == 1
+    diff = abs(n_out - k * npts) if mode != "decimate" else abs(n_out * k - npts)
+    if lengths:
+        ctx.check(not odd_when_even, "%s: even=True but %d samples returned (npts=%d, dt=%r, target=%r)" % (what, n_out, npts, dt, target))
+        if diff >= 2 * k:
+            ctx.fail("%s: covered duration changes by %s steps (>= 2): %d samples at %r -> %d samples at %r" % (
+                what, Fraction(diff, k), npts, dt, n_out, new_dt))
+    else:
+        ctx.cls("odd-length-when-even-requested" if odd_when_even else None, "duration-off-by>=2-steps" if diff >= 2 * k else None)
+    if diff * 2 >= 3 * k:
+        ctx.cls("duration-off-by>=1.5-steps")
     return mode, k
 
 
 def _classify_pair(ctx, case, mode, k, npts, n_out):
     dt, target = case["dt"], case["target"]
     ctx.cls(mode, "fam=" + case.get("fam", "?"), "even" if case["even"] else "not-even", "form=" + case.get("form", "kw"))
-    ctx.cls(*_quotient_class(dt, target))
+    qcls = _quotient_class(dt, target)
+    ctx.cls(*qcls)
+    # what was ASKED for (the statement's reading of the pair in exact arithmetic: ceil / reciprocal floor) next to what came back.
+    # The statement does not say that the returned step is the LARGEST admissible one, so a different factor is not a violation;
+    # the health floors on 'req=...,k==ref' make a run in which the library no longer follows the request unhealthy (exit 2)
+    # instead of silently passing: the generator's constructions (lengths k*q, band limits, k strata) are built on the reference k
     ref_mode, ref_k = _ref_factor(dt, target)
+    ctx.cls("req=" + ref_mode)
     if (ref_mode, ref_k) != (mode, k):
         ctx.cls("k-differs-from-exact")  # allowed: quotient next to an integer
+    else:
+        ctx.cls("k==ref", "req=%s,k==ref" % ref_mode)
+    if k > KMAX_INTERP:
+        ctx.cls("k>80")
+    if k > KMAX_FOURIER:
+        ctx.cls("k>30")
     if dt == target:
         ctx.cls("dt==target")
     if mode == "refine":
@@ -264,8 +374,16 @@ def _interp_cases(draw):
     mode, k = _ref_factor(dt, target)
     nmin = _min_npts(dt, target)
     cap = 3000
-    max_n = max(nmin, min(cap, OUT_CAP // (k + 1))) if mode == "refine" else max(nmin, cap)
-    if mode == "decimate" and draw(st.integers(0, 2)) == 0:
+    # refinement: output <= OUT_CAP samples; decimation by a wide factor needs 2k+1 samples for the duration precondition
+    max_n = max(nmin, min(cap, OUT_CAP // (k + 1))) if mode == "refine" else max(nmin + 64, cap)
+    even = draw(_BOOL)
+    if p["fam"] == "inexact" and mode == "decimate":
+        # length k * (even quotient): fl(1/k)*npts lies just below the even whole number npts/k, an even truncation of THAT product
+        # loses two samples = two new steps
+        n = k * 2 * draw(st.integers(2, 6))
+        even = draw(st.integers(0, 3)) != 0
+        spec = draw(gen.record_specs(min_n=n, max_n=n, small_max=n, kinds=LONG_KINDS, allow_int=True, allow_zero_runs=False))
+    elif mode == "decimate" and draw(st.integers(0, 2)) == 0:
         # record length a multiple of the decimation factor (the new grid ends exactly one new step before npts*dt)
         q_min = max(2, -(-nmin // k))
         n = k * draw(st.one_of(st.integers(q_min, q_min + 9), st.integers(q_min, max(q_min, cap // k))))
@@ -273,20 +391,26 @@ def _interp_cases(draw):
                                      allow_zero_runs=False))
     else:
         spec = draw(gen.record_specs(min_n=nmin, max_n=max_n, kinds=None if nmin <= 40 else LONG_KINDS, allow_int=True))
-    return {"rec": spec, "dt": dt, "target": target, "even": draw(_BOOL), "form": draw(_FORM), "fam": p["fam"]}
+    return {"rec": spec, "dt": dt, "target": target, "even": even, "form": draw(_FORM), "fam": p["fam"], "dtas": draw(_DTAS),
+            "objvar": draw(_OBJVAR)}
 
 
 @clause(CLAUSES, "interp-rule", _interp_cases(), quick=2000, thorough=10000,
         rule="(dt, target) pairs: independent log-uniform / repo rates, log-uniform ratio in (1, 80], commensurate (target = dt*k, dt/k, dt = target*k, target/k as "
              "float products, k <= 80), thousandths (multiples and free), default target 0.01, 1-2 ulp neighbours of a commensurate "
-             "target, dt == target; records of all kinds (float / int / list) with npts from the duration precondition up to 3000; "
-             "even in {T, F}; positional / keyword / defaults-omitted calls; non-trivial = returned step != dt and record not constant",
-        oracle="reference model in exact rational arithmetic on the returned step (step <= target*(1+4eps), ratio within 1e-9 of an "
-               "integer, even length, |len*new_dt - npts*dt| < 2 max(dt,new_dt)); refinement out[::k] == record bitwise; decimation "
-               "out[i] == record[i*k] to 4 eps (npts*range + max|a|); range +- 4 eps max|a|; differential: interp_to_approx_dt "
-               "(AccSignal) == array level, bitwise; inputs unchanged",
-        require={"refine": 0.25, "decimate": 0.25, "near-int": 0.10, "dt==target": 0.03, "even-truncated": 0.04, "k>4": 0.15,
-                 "q-near-int-below": 0.01, "q-near-int-above": 0.01},
+             "target, targets moved off a commensurate value by a relative 1e-15..1e-4 to either side, wide ratios (k = 81..2500, "
+             "commensurate and generic, steps 4e-8..2.5e4), decimation by factors with an inexact reciprocal (49, 98, 103, 107 ... ; length "
+             "k * even, even=True in 3 of 4), dt == target; records of all kinds (float / int / list / views) with npts from the "
+             "duration precondition up to 3000 (2k+65 for wide decimations); even in {T, F}; positional / keyword / defaults-omitted / "
+             "mixed calls; dt as float / numpy scalar / int; object with default or non-default settings; non-trivial = returned step != dt and record not constant",
+        oracle="reference model, array level and object level each on its own output: step <= target*(1+4eps) (exact rationals), ratio "
+               "within 16 eps of an integer, even length, duration in integer arithmetic |n_out - k*npts| < 2k resp. |n_out*k - npts| < 2k (no "
+               "ambiguity band); refinement: n_out >= (npts-1)k+1 and out[::k][:npts] == record bitwise (ALL originals); decimation "
+               "out[i] == record[i*k] to 4 eps (npts*range + max|a|); range +- 4 eps max|a|; inputs unchanged",
+        require={"refine": 0.25, "decimate": 0.25, "req=refine": 0.25, "req=decimate": 0.25, "req=refine,k==ref": 0.2,
+                 "req=decimate,k==ref": 0.2, "near-int": 0.10, "dt==target": 0.03, "even-truncated": 0.04, "k>4": 0.15,
+                 "q-near-int-below": 0.01, "q-near-int-above": 0.01, "fam=wide": 0.04, "fam=nudge": 0.06, "fam=inexact": 0.015,
+                 "k>80": 0.04, "form=mixed": 0.1},
         min_nontrivial=0.4)
 def interp_rule(case, ctx):
     spec = case["rec"]
@@ -300,39 +424,52 @@ def _interp_oracle(ctx, a, dt, target, even, res_values, new_dt, what):
     (every one of them), range.  a = the record as float64; returns (mode, k, out)."""
     npts = len(a)
     out = np.asarray(res_values)
-    ctx.check(out.ndim == 1 and out.dtype.kind == "f", "%s: interpolated values: ndim=%d dtype=%s" % (what, out.ndim, out.dtype))
+    # any real numeric dtype: a decimator that slices an integer record returns integers, a true subsequence
+    ctx.check(out.ndim == 1 and out.dtype.kind in "fiu", "%s: interpolated values: ndim=%d dtype=%s" % (what, out.ndim, out.dtype))
+    out = out.astype(float) if out.dtype.kind != "f" else out
     n_out = len(out)
     mode, k = _step_rules(ctx, dt, target, new_dt, npts, n_out, even, what)
     lo, hi = float(a.min()), float(a.max())
     rng = hi - lo
     amax = max(abs(lo), abs(hi))
-    ctx.finite(out, "interpolated values")
+    ctx.finite(out, "%s: interpolated values" % what)
     # retained samples
-    if mode in ("refine", "same"):
-        sub = out[::k]
-        m = min(len(sub), npts)
-        ctx.equal(sub[:m], a[:m], "refinement by %d (dt=%r -> %r): original samples at out[::%d]" % (k, dt, float(new_dt), k))
+    if mode == "refine":
+        # 'original samples reappear unchanged at their instants when refining': ALL of them, the last one at output index (npts-1)*k.
+        # (An even length requested for an odd k*npts costs one of the k-1 samples after the last original, never an original.)
+        ctx.check(n_out >= (npts - 1) * k + 1,
+                  "%s: refinement by %d of %d samples returned %d samples: the original sample(s) from index %d on do not reappear "
+                  "(the last one belongs at output index %d)" % (what, k, npts, n_out, (n_out - 1) // k + 1, (npts - 1) * k))
+        ctx.equal(out[::k][:npts], a, "%s: refinement by %d (dt=%r -> %r): original samples at out[::%d]" % (what, k, dt, float(new_dt), k))
+    elif mode == "same":
+        # unchanged step: neither refinement nor decimation; the output instants are the input instants, so whatever is returned must
+        # be the record (an even length requested for an odd record drops its last sample; the duration rule bounds the loss)
+        m = min(n_out, npts)
+        ctx.equal(out[:m], a[:m], "%s: unchanged step %r: output vs record" % (what, dt))
     else:
+        # 'the output is a subsequence of the input when decimating' + the returned step: output sample i stands at the instant
+        # i*new_dt = i*k*dt of a record that starts at t = 0, where the input has record[i*k]
         idx = np.arange(n_out, dtype=np.int64) * k
         inside = idx <= npts - 1
         tol = 4 * EPS * (npts * rng + amax)
         ctx.close(out[inside], a[idx[inside]], tol,
-                  "decimation by %d (dt=%r -> %r): out[i] vs record[i*%d]" % (k, dt, float(new_dt), k))
+                  "%s: decimation by %d (dt=%r -> %r): out[i] vs record[i*%d]" % (what, k, dt, float(new_dt), k))
         for i in np.flatnonzero(~inside):
             ctx.cls("decimate-past-end")
             later = a[(int(i) - 1) * k + 1:]
             ctx.check(bool(np.any(later == out[i])),
-                      "decimation by %d: out[%d]=%r (instant beyond the record) is not an input sample after index %d" % (
-                          k, i, out[i], (int(i) - 1) * k))
-    # range
+                      "%s: decimation by %d: out[%d]=%r (instant beyond the record) is not an input sample after index %d" % (
+                          what, k, i, out[i], (int(i) - 1) * k))
+    # range (global, as the statement says; it is silent on HOW the samples between two originals are filled)
     tol_r = 4 * EPS * amax
     ctx.check(bool(np.all(out >= lo - tol_r) and np.all(out <= hi + tol_r)),
-              "values leave the input's range [%r, %r]: min %r max %r" % (lo, hi, float(out.min()), float(out.max())))
+              "%s: values leave the input's range [%r, %r]: min %r max %r" % (what, lo, hi, float(out.min()), float(out.max())))
     return mode, k, out
 
 
 def _interp_check(ctx, case, arg, kind, container=None, asig=None):
-    """Array level (oracle on the whole output) + object level (differential, bitwise) for one record `arg`.  asig: an existing
+    """Array level and object level, each held against the oracle on its whole output (the quantifier covers both variants; the
+    statement does not say that the two agree bit for bit, so their agreement is only recorded as a class).  asig: an existing
     signal object holding the record (history variant) instead of a fresh one."""
     a = np.array(arg, dtype=float)  # what the library sees (the int variant rounds)
     dt, target, even = case["dt"], case["target"], bool(case["even"])
@@ -341,7 +478,8 @@ def _interp_check(ctx, case, arg, kind, container=None, asig=None):
     if Fraction(npts - 1) * Fraction(dt) < 2 * max(Fraction(dt), Fraction(target)):
         raise HarnessError("case outside the quantifier: duration < 2*max(dt, target)")
     before = np.array(arg).copy()
-    res = _call(ctx, ts.interp_array_to_approx_dt, (arg, dt), target, even, form)
+    dt_arg = _dt_arg(ctx, dt, case.get("dtas"))
+    res = _call(ctx, ts.interp_array_to_approx_dt, (arg, dt_arg), target, even, form)
     ctx.check(isinstance(res, tuple) and len(res) == 2, "interp_array_to_approx_dt did not return (values, dt): %r" % (type(res),))
     ctx.equal(np.array(arg), before, "input record after the call")
     mode, k, out = _interp_oracle(ctx, a, dt, target, even, res[0], res[1], "interp_array_to_approx_dt")
@@ -352,14 +490,15 @@ def _interp_check(ctx, case, arg, kind, container=None, asig=None):
     if container:
         ctx.cls("as=" + container)
     ctx.nt(mode != "same" and float(a.max()) > float(a.min()))
-    # object level
+    # object level: the same sentence, judged on its own output
     if asig is None:
-        asig = ctx.lib(eqsig.AccSignal, a, dt)
+        asig = _make_asig(ctx, a, dt_arg, case.get("objvar"))
     o = _call(ctx, ts.interp_to_approx_dt, (asig,), target, even, form)
     ctx.check(isinstance(o, eqsig.AccSignal), "interp_to_approx_dt returned %r, not an AccSignal" % (type(o),))
-    ctx.equal(np.asarray(o.values), out, "interp_to_approx_dt(...).values vs interp_array_to_approx_dt")
-    ctx.check(float(o.dt) == float(new_dt), "interp_to_approx_dt(...).dt=%r vs array level %r" % (o.dt, new_dt))
-    ctx.check(o.npts == n_out, "interp_to_approx_dt(...).npts=%r vs %d values" % (o.npts, n_out))
+    omode, ok, oout = _interp_oracle(ctx, a, dt, target, even, o.values, o.dt, "interp_to_approx_dt")
+    ctx.check(o.npts == len(oout), "interp_to_approx_dt(...).npts=%r but %d values" % (o.npts, len(oout)))
+    same = oout.shape == out.shape and bool(np.array_equal(oout, out)) and float(o.dt) == float(new_dt)
+    ctx.cls("obj==array" if same else "obj!=array")
     ctx.check(asig.dt == dt, "interp_to_approx_dt changed the dt of its argument: %r" % (asig.dt,))
     ctx.equal(np.asarray(asig.values), a, "values of the signal passed to interp_to_approx_dt")
     return mode, k, n_out
@@ -377,18 +516,14 @@ _FLAVOUR = st.sampled_from(["mult", "mult", "free"])
 @st.composite
 def _fourier_cases(draw):
     p = draw(_PAIRS_FOURIER)
-    if draw(st.integers(0, 19)) == 11:
-        # decimation factors whose reciprocal is not exact in double precision (k*fl(1/k) != 1: 49, 98, 103, 107): the library
-        # forms the new length as fl(1/k)*npts, which lands just below the integer npts/k
-        k = draw(st.sampled_from([49, 98, 103, 107]))
-        base = 2.0 ** -draw(st.integers(3, 9))
-        p = {"dt": base, "target": base * k, "fam": "inexact-reciprocal"}
     dt, target = p["dt"], p["target"]
     mode, k = _ref_factor(dt, target)
     nmin = max(3, _min_npts(dt, target))
     cap = 1500 if tier() == "quick" else 2500
-    cap = max(nmin, min(cap, 60000 // k)) if mode == "refine" else max(nmin, cap)
+    cap = max(nmin, min(cap, 60000 // k)) if mode == "refine" else max(nmin + 64, cap)
     flavour = draw(_FLAVOUR) if mode == "decimate" else "free"
+    if p["fam"] == "inexact":
+        flavour = "mult"   # fl(1/k)*npts just below the whole number npts/k
     if flavour == "mult":
         q_min = max(3, -(-nmin // k))
         q = draw(st.one_of(st.integers(q_min, q_min + 9), st.integers(q_min, max(q_min, cap // k))))
@@ -398,7 +533,7 @@ def _fourier_cases(draw):
     else:
         npts = draw(st.one_of(st.integers(nmin, min(cap, nmin + 12)), st.integers(nmin, cap)))
     case = {"npts": npts, "dt": dt, "target": target, "even": draw(_BOOL), "comps": draw(_COMPS), "form": draw(_FORM),
-            "fam": p["fam"]}
+            "fam": p["fam"], "dtas": draw(_DTAS), "objvar": draw(_OBJVAR)}
     if mode == "refine" and draw(st.integers(0, 3)) == 0:
         # a component exactly at the OLD Nyquist harmonic npts/2 (even npts), in cosine phase: x_i = c*(-1)^i.  It is periodic over
         # the record and below the new Nyquist frequency (the step is refined), so the statement covers it
@@ -479,17 +614,19 @@ def _cross_check_fx(expect, comps, m_list, n, cycles_per_sample, csum):
 
 
 @clause(CLAUSES, "fourier-rule", _fourier_cases(), quick=2000, thorough=10000,
-        rule="(dt, target) pairs as in interp-rule (k <= 30, plus 1 case in 20 decimating by 49 / 98 / 103 / 107, whose reciprocals are "
-             "inexact in double precision); npts from the duration precondition up to 1500 (2500 thorough), for "
-             "decimation two thirds of the cases npts = k*q (half of them q even) so that the new grid is commensurate; 1-3 cosine "
+        rule="(dt, target) pairs as in interp-rule (ordinary families k <= 30; nudged, wide k = 31..2500 and inexact-reciprocal families "
+             "as there); npts from the duration precondition up to 1500 (2500 thorough; 2k+65 for wide decimations; refined output <= "
+             "60 000), for decimation two thirds of the cases npts = k*q (half of them q even) so that the new grid is commensurate; 1-3 cosine "
              "components, the first with index m = min(M, 1+floor(mu*M)), the others m = min(M, floor(mu*(M+1))) (mu in [0,1], both "
-             "ends drawn), M = largest index below the old and the new Nyquist index, amplitude +-[1e-3,1e3], phase [0,2pi); even in {T,F}; three call forms; non-trivial = returned "
+             "ends drawn), M = largest index below the old and the new Nyquist index, amplitude +-[1e-3,1e3], phase [0,2pi); even in {T,F}; four call forms; non-trivial = returned "
              "step != dt and some component with m >= 1",
-        oracle="reference model: same rational step / ratio / evenness / length rules as interp-rule; output[i] == x(i*new_dt) "
-               "evaluated from the closed form in long double, tolerance 1e-9*sum|c|; incommensurate cases (known finding C14-KF1): "
-               "output[i] == x(i*npts*dt/len(output))",
-        require={"refine": 0.2, "decimate": 0.2, "commensurate": 0.4, "decimate-commensurate": 0.08, "refine-commensurate": 0.1,
-                 "incommensurate": 0.1, "m-top": 0.1, "not-even": 0.3},
+        oracle="reference model: step <= target, integer ratio, even length and duration rule as in interp-rule; output[i] == x(i*new_dt) from the closed form in long double (fixed point above 20 000 samples), "
+               "tolerance 1e-9*sum|c|; forced incommensurate cases (known finding C14-KF1): output[i] == x(i*npts*dt/len(output)), "
+               "with a second call on components clipped below len(output)/2 where the first cannot be judged",
+        require={"refine": 0.2, "decimate": 0.2, "req=refine": 0.2, "req=decimate": 0.2, "req=refine,k==ref": 0.15,
+                 "req=decimate,k==ref": 0.15, "commensurate": 0.4, "decimate-commensurate": 0.08, "refine-commensurate": 0.1,
+                 "incommensurate": 0.1, "m-top": 0.1, "not-even": 0.3, "fam=wide": 0.04, "fam=nudge": 0.06, "fam=inexact": 0.015,
+                 "k>30": 0.1},
         min_nontrivial=0.4)
 def fourier_rule(case, ctx):
     _fourier_check(ctx, case)
@@ -522,29 +659,38 @@ def _fourier_signal(case, ctx=None, fast=False):
     return x, comps, m_list, big_m
 
 
-def _fourier_check(ctx, case, fast=False, asig=None, signal=None):
+FAST_ABOVE = 20000   # outputs longer than this use the fixed-point reference (a few thousand samples: long double)
+
+
+def _fourier_check(ctx, case, fast=False, asig=None, signal=None, second=False):
     """The Fourier sentence of the statement on one call.  fast=False: long-double closed form, tolerance 1e-9*sum|c| (records of a
-    few thousand samples); fast=True (mid-range sizes): the same closed form with the phase accumulated in 64-bit fixed point from the
-    exact rational cycles-per-sample, cross-checked against the long-double form on a sample of instants, and the tolerance
-    re-derived for the size (see ASSUMPTIONS).  asig: an existing signal object holding the test record (history variant)."""
+    few thousand samples); fast=True (mid-range sizes, and any output longer than FAST_ABOVE): the same closed form with the phase
+    accumulated in 64-bit fixed point from the exact rational cycles-per-sample, cross-checked against the long-double form on a
+    sample of instants, and the tolerance re-derived for the size (see ASSUMPTIONS).  asig: an existing signal object holding the test
+    record (history variant).  second: this is the second call of a known-finding case (components clipped below len(out)/2)."""
     npts, dt, target, even = int(case["npts"]), case["dt"], case["target"], bool(case["even"])
     form = case.get("form", "kw")
     x, comps, m_list, big_m = signal if signal is not None else _fourier_signal(case, ctx, fast)
     csum = float(sum(abs(c) for mu, c, phi in comps))
     if asig is None:
-        asig = ctx.lib(eqsig.AccSignal, x, dt)
+        asig = _make_asig(ctx, x, _dt_arg(ctx, dt, case.get("dtas")), case.get("objvar"))
     o = _call(ctx, ts.resample_to_approx_dt, (asig,), target, even, form)
     ctx.check(isinstance(o, eqsig.AccSignal), "resample_to_approx_dt returned %r, not an AccSignal" % (type(o),))
     y = np.asarray(o.values)
-    ctx.check(y.ndim == 1 and y.dtype.kind == "f", "resampled values: ndim=%d dtype=%s" % (y.ndim, y.dtype))
+    ctx.check(y.ndim == 1 and y.dtype.kind in "fiu", "resampled values: ndim=%d dtype=%s" % (y.ndim, y.dtype))
+    y = y.astype(float) if y.dtype.kind != "f" else y
     n_out = len(y)
     new_dt = o.dt
+    # step rule + evenness + duration: the quantifier ('even in {True, False}, array-level and object-level variants') is read as
+    # covering both resamplers, and resample_to_approx_dt documents `even` as forcing an even number of samples (see ASSUMPTIONS
+    # for the narrower reading of the Fourier sentence)
     mode, k = _step_rules(ctx, dt, target, new_dt, npts, n_out, even, "resample_to_approx_dt")
-    _classify_pair(ctx, case, mode, k, npts, n_out)
-    ctx.cls(gen.size_class(npts), "ncomp=%d" % len(comps))
-    if big_m >= 1 and max(m_list) == big_m:
-        ctx.cls("m-top")
-    ctx.nt(mode != "same" and any(m >= 1 for m in m_list))
+    if not second:
+        _classify_pair(ctx, case, mode, k, npts, n_out)
+        ctx.cls(gen.size_class(npts), "ncomp=%d" % len(comps))
+        if big_m >= 1 and max(m_list) == big_m:
+            ctx.cls("m-top")
+        ctx.nt(mode != "same" and any(m >= 1 for m in m_list))
     ctx.check(o.npts == n_out, "returned signal: npts=%r but %d values" % (o.npts, n_out))
     ctx.finite(y, "resampled values")
     ctx.equal(np.asarray(asig.values), x, "values of the signal passed to resample_to_approx_dt")
@@ -554,7 +700,9 @@ def _fourier_check(ctx, case, fast=False, asig=None, signal=None):
         commensurate = n_out * k == npts
     else:
         commensurate = n_out == k * npts
-    ctx.cls("commensurate" if commensurate else "incommensurate", mode + ("-commensurate" if commensurate else "-incommensurate"))
+    if not second:
+        ctx.cls("commensurate" if commensurate else "incommensurate", mode + ("-commensurate" if commensurate else "-incommensurate"))
+    fast = fast or n_out > FAST_ABOVE
     tol = 1e-9 * csum
     # the statement: output[i] = x(i * new_dt)
     if fast:
@@ -564,11 +712,15 @@ def _fourier_check(ctx, case, fast=False, asig=None, signal=None):
         cps = Fraction(float(new_dt)) / (npts * Fraction(dt))
         expect = _tones_fx(comps, m_list, n_out, cps)
         _cross_check_fx(expect, comps, m_list, n_out, LD(float(new_dt)) / (LD(npts) * LD(dt)), csum)
+        err = float(np.max(np.abs(y - expect)))
     else:
         per_sample = LD(float(new_dt)) / (LD(npts) * LD(dt))
         expect = _tones(comps, m_list, n_out, per_sample)
-    err = float(np.max(np.abs(y.astype(LD) - expect))) if not fast else float(np.max(np.abs(y - expect)))
+        err = float(np.max(np.abs(y.astype(LD) - expect)))
     ctx.notes["err/tol"] = err / tol
+    if not second:
+        # how close the error of the reproduction comes to the tolerance (record for the evidence)
+        ctx.cls("err/tol<1e-3" if err < 1e-3 * tol else "err/tol<0.1" if err < 0.1 * tol else "err/tol<1" if err <= tol else "err/tol>1")
     if err <= tol:
         return mode, k, n_out
     # the known finding covers incommensurability that the statement's own rules FORCE: a decimation factor that does not
@@ -587,12 +739,95 @@ def _fourier_check(ctx, case, fast=False, asig=None, signal=None):
             ctx.close(y, regrid, 1e-9 * csum,
                       "incommensurate resampling (%d -> %d samples): output vs signal at the instants i*npts*dt/len(output)" % (
                           npts, n_out))
+        elif not second:
+            # some component lies at or above len(out)/2: on the grid of len(out) instants per record period that SciPy uses it is
+            # not representable, the bound of the known finding says nothing about this output.  What CAN be asserted: the same call
+            # on the same record length with every component moved below len(out)/2 (still periodic over the record and band-limited
+            # below the new Nyquist frequency, so inside the statement) must be reproduced on that grid.
+            top = (n_out - 1) // 2   # 0 for an output of one or two samples: only a constant is representable there
+            m2 = [min(int(m), top) for m in m_list]
+            x2 = _tones_fx(comps, m2, npts, Fraction(1, npts)) if fast else np.asarray(_tones_exact_grid(comps, m2, npts), dtype=float)
+            ctx.cls("kf-second-call")
+            _fourier_check(ctx, case, fast=fast, signal=(x2, comps, m2, big_m), second=True)
+        else:
+            ctx.cls("kf-second-call-unchecked")
         return mode, k, n_out
     j = int(np.argmax(np.abs(y.astype(LD) - expect)))
     ctx.fail("band-limited periodic signal (m=%s of npts=%d, dt=%r) not reproduced at i*new_dt (new_dt=%r, %d samples, %s): "
              "output[%d]=%r, signal %r, max error %.3e > %.3e" % (
                  m_list, npts, dt, float(new_dt), n_out, "commensurate" if commensurate else "len*new_dt != npts*dt",
                  j, float(y[j]), float(expect[j]), err, tol))
+
+
+# ---------------------------------------------------------------------------
+# clause 3: the anchored consumer - AccSignal.gen_response_spectrum refines the record through interp_array_to_approx_dt(values, dt,
+# target_dt, even=False) (target positional, even by keyword) whenever min(period)/20 or dt/min_dt_ratio is below dt.  The values it
+# gets back are not observable from outside, so the call is observed at the module attribute eqsig.single.interp_array_to_approx_dt
+# (wrapped for the duration of the call; the oracle looks only at the arguments and the result of the call).
+
+import eqsig.single as _single
+
+_RATIOS = st.lists(gen.log_uniform(0.6, 60.0), min_size=1, max_size=3)
+_MDR = st.sampled_from([None, None, 2, 3, 8, 10, 25])
+
+
+@st.composite
+def _consumer_cases(draw):
+    spec = draw(gen.record_specs(min_n=4, max_n=300, kinds=LONG_KINDS, allow_zero_runs=False))
+    return {"rec": spec, "dt": draw(_DTS), "ratios": draw(_RATIOS), "mdr": draw(_MDR)}
+
+
+@clause(CLAUSES, "consumer-call", _consumer_cases(), quick=150, thorough=400,
+        rule="records of 4..300 samples, dt log-uniform / repo rates, 1-3 response periods T = r*dt with r log-uniform in [0.6, 60] (refinement "
+             "is requested when min r < 20), min_dt_ratio default / 2 / 3 / 8 / 10 / 25; non-trivial = the consumer called the interpolation",
+        oracle="every call of interp_array_to_approx_dt made by gen_response_spectrum is held against the interpolation oracle of "
+               "interp-rule (arguments bound by the pinned signature); an exception of the consumer itself is not a C14 matter (label)",
+        require={"consumer-call-observed": 0.3}, min_nontrivial=0.3)
+def consumer_call(case, ctx):
+    a = gen.build(case["rec"])
+    dt = case["dt"]
+    periods = [r * dt for r in case["ratios"]]
+    if not hasattr(_single, "interp_array_to_approx_dt"):
+        ctx.cls("no-observation-point")
+        return
+    asig = eqsig.AccSignal(a, dt)
+    calls = []
+    orig = _single.interp_array_to_approx_dt
+
+    def spy(*args, **kwargs):
+        res = orig(*args, **kwargs)
+        calls.append((args, kwargs, res))
+        return res
+
+    _single.interp_array_to_approx_dt = spy
+    try:
+        try:
+            if case["mdr"] is None:
+                asig.gen_response_spectrum(response_times=periods)
+            else:
+                asig.gen_response_spectrum(response_times=periods, min_dt_ratio=case["mdr"])
+        except MemoryError:
+            raise
+        except Exception:  # noqa  (the response spectrum is the business of C02..C05)
+            ctx.cls("consumer-raised")
+    finally:
+        _single.interp_array_to_approx_dt = orig
+    for args, kwargs, res in calls:
+        names = ["values", "dt", "target_dt", "even"]
+        bound = {"target_dt": 0.01, "even": True}
+        bound.update(dict(zip(names, args)))
+        bound.update(kwargs)
+        ctx.cls("consumer-call-observed", "consumer-even=%r" % (bool(bound["even"]),))
+        vals = np.array(bound["values"], dtype=float)
+        d, t = float(bound["dt"]), float(bound["target_dt"])
+        if Fraction(len(vals) - 1) * Fraction(d) < 2 * max(Fraction(d), Fraction(t)):
+            ctx.cls("consumer-call-outside-quantifier")
+            continue
+        ctx.check(isinstance(res, tuple) and len(res) == 2, "interp_array_to_approx_dt did not return (values, dt): %r" % (type(res),))
+        mode, k, out = _interp_oracle(ctx, vals, d, t, bool(bound["even"]), res[0], res[1],
+                                      "interp_array_to_approx_dt (called by gen_response_spectrum)")
+        ctx.cls("consumer-" + mode)
+        ctx.nt(True)
 
 
 # ---------------------------------------------------------------------------
@@ -683,7 +918,12 @@ def _mid_sizes(tier, which):
 _MID_DTS = [d for d in gen.REPO_DTS if d <= 0.2]
 # (slot, even): every length meets refinement, decimation (record length a multiple of the factor / arbitrary) and an unchanged
 # step, each with both values of `even`
+K_REFINE_WIDE = (11, KMAX_WIDE)     # while the refined output stays under the cap (3e6 samples: x1500 at 2000, x11 at 270 000)
+K_DECIMATE_WIDE = (51, KMAX_WIDE)   # while the duration precondition holds (2k+1 samples: x999 at 2000)
+MID_MINED_OUT = {("interp", "quick"): 8000000, ("interp", "thorough"): 24000000,
+                 ("fourier", "quick"): 4000000, ("fourier", "thorough"): 12000000}
 _MID_SLOTS = [("refine", True), ("refine", False), ("decimate-mult", True), ("decimate-mult", False), ("decimate-free", None),
+              ("refine-wide", None), ("decimate-wide", None),
               ("same", True), ("same", False)]
 
 
@@ -694,7 +934,7 @@ def _mid_pair(slot, k, key):
     dt = _MID_DTS[_hh(key, "dtpick") % len(_MID_DTS)] if u < 0.5 else float(10.0 ** (-3 + 2.3 * _unit_hash(key, "dtlog")))
     fam = ["comm-quot", "comm-prod", "generic"][_hh(key, "fam") % 3]
     frac = 0.05 + 0.9 * _unit_hash(key, "frac")
-    if slot == "refine":
+    if slot.startswith("refine"):
         if fam == "comm-quot":
             target = dt / k
         elif fam == "comm-prod":
@@ -723,6 +963,12 @@ def _pick_k(slot, npts, cap, key, top=False):
         if top:
             return hi
         return K_REFINE[0] + _hh(key, "k") % (hi - K_REFINE[0] + 1)
+    if slot in ("refine-wide", "decimate-wide"):
+        lo, hi = K_REFINE_WIDE if slot == "refine-wide" else K_DECIMATE_WIDE
+        hi = min(hi, cap // npts if slot == "refine-wide" else (npts - 3) // 2)
+        if hi < lo:
+            return None   # no wide factor fits this length
+        return int(min(hi, math.exp(math.log(lo) + (math.log(hi + 1) - math.log(lo)) * _unit_hash(key, "k"))))
     if slot.startswith("decimate"):
         # log-uniform over 2..50: small factors are as frequent as large ones
         lo, hi = K_DECIMATE
@@ -741,6 +987,8 @@ def _mid_cases(tier, which):
             # of the two refining cases of a length one (hash-chosen) takes the largest admissible factor: the longest outputs
             top = slot == "refine" and bool(even) == bool(_hh(seed, which, tier, s, "topslot") % 2)
             k = _pick_k(slot, s, cap, key, top)
+            if k is None:
+                continue
             dt, target, fam = _mid_pair(slot, k, key)
             mode, kk = _ref_factor(dt, target)   # the statement's rule on the doubles (a float product can land next to k)
             npts = s
@@ -752,8 +1000,19 @@ def _mid_cases(tier, which):
             if even is None:
                 even = bool(_hh(key, "even") % 2)
             case = {"npts": int(npts), "dt": dt, "target": target, "even": bool(even), "fam": fam, "slot": slot,
-                    "form": FORMS[_hh(key, "form") % 3], "seed": int(_hh(key, "seed") % (2 ** 31 - 1))}
+                    "form": FORMS[_hh(key, "form") % len(FORMS)], "seed": int(_hh(key, "seed") % (2 ** 31 - 1))}
             cases.append(case)
+    # OUTPUT lengths aimed at integer literals of the source beyond the ladder (a path switched on by `new_npts > 4_000_000`): a
+    # refinement whose output is just above the literal (at most 4 literals, hash-chosen)
+    mined = gen.mined_ints(MID_HI[tier] + 1, MID_MINED_OUT[(which, tier)])
+    for c in sorted(mined, key=lambda v: _hh(seed, which, tier, "minedout", v))[:4]:
+        key = "%d:%s:%s:minedout:%d" % (seed, which, tier, c)
+        k = 4 + _hh(key, "k") % 7
+        npts = c // k + 1 + _hh(key, "n") % 40
+        dt, target, fam = _mid_pair("refine", k, key)
+        cases.append({"npts": int(npts), "dt": dt, "target": target, "even": bool(_hh(key, "even") % 2), "fam": fam,
+                      "slot": "refine-mined-output", "form": FORMS[_hh(key, "form") % len(FORMS)],
+                      "seed": int(_hh(key, "seed") % (2 ** 31 - 1))})
     return cases
 
 
@@ -813,15 +1072,17 @@ def _mid_interp_enum(tier, shard, nshards):
 @enum_clause(CLAUSES, "mid-range-interp", _mid_interp_enum,
              rule="record lengths: ladder of 20 (quick, 2 000..300 000) / 48 (thorough, ..2 000 000) seed-placed sizes + one in the last "
                   "tenth of the range, sizes aimed at integer literals of the source, next-prime / power-of-two / 7-smooth neighbours of "
-                  "5 / 14 of them; every length x {refine k in 2..10 (one of the two cases: the largest k with output <= 3e6 / 1.2e7), decimate k in 2..50 with npts a multiple of k, decimate with the arbitrary length, unchanged step "
+                  "5 / 14 of them; every length x {refine k in 2..10 (one of the two cases: the largest k with output <= 3e6 / 1.2e7), decimate k in 2..50 with npts a multiple of k, decimate with the arbitrary length, refine by a wide factor 11..2500 while the "
+                  "output stays under the cap, decimate by a wide factor 51..2500 while 2k+1 <= npts, unchanged step "
                   "(target == dt or dt < target < 2 dt)} x even in {T, F}; (dt, target) commensurate as float product / quotient or "
                   "generic; records noise x envelope / walk / sines + noise / ramp + noise with offsets 0, +-3, +-50 and container "
-                  "variants; three call forms; non-trivial = step changed",
+                  "variants; four call forms; non-trivial = step changed",
              oracle="the oracle of interp-rule on the WHOLE output (every retained sample bitwise / to 4 eps (npts*range + max|a|), range, "
-                    "rational step / ratio / length / evenness rules) + differential object level vs array level (bitwise)",
+                    "step / ratio / length / evenness rules), array level and object level each on its own output; + a refinement whose OUTPUT "
+                    "length lies just above an integer literal of the source beyond the ladder (<= 8e6 / 2.4e7 samples)",
              exhaustive_note="all listed (length, ratio, even) combinations", quick_shards=4,
-             require={"refine": 0.2, "decimate": 0.3, "same": 0.15, "even": 0.4, "not-even": 0.4, "len=prime": 0.03,
-                      "len=power-of-two": 0.03},
+             require={"refine": 0.2, "decimate": 0.3, "same": 0.12, "even": 0.35, "not-even": 0.35, "len=prime": 0.03,
+                      "len=power-of-two": 0.03, "req=refine,k==ref": 0.15, "req=decimate,k==ref": 0.2, "k>80": 0.04},
              min_nontrivial=0.5)
 def mid_range_interp(case, ctx):
     n = int(case["npts"])
@@ -841,7 +1102,7 @@ def _mid_comps(case):
     loud in the last samples as anywhere else."""
     rs = np.random.RandomState(case["seed"])
     top = 1.0 if rs.randint(3) else 0.9
-    if case["slot"] == "decimate-free":
+    if case["slot"] in ("decimate-free", "decimate-wide"):
         top = 0.9    # the known-finding route can only be checked below the (truncated) new Nyquist index
     mus = [rs.uniform(0.02, min(top, 0.98)), top, rs.uniform(0.0, 0.02)]
     comps = [[float(mu), float(rs.choice([-1.0, 1.0]) * 10.0 ** rs.uniform(-1.3, 1.3)), float(rs.uniform(0, 6.2831))] for mu in mus]
@@ -856,7 +1117,7 @@ def _mid_comps(case):
 def _mid_fourier_case(case):
     comps, nyq = _mid_comps(case)
     full = dict(case, comps=comps)
-    if nyq is not None and case["slot"] == "refine" and case["npts"] % 2 == 0:
+    if nyq is not None and case["slot"].startswith("refine") and case["npts"] % 2 == 0:
         full["nyq"] = nyq
     return full
 
@@ -876,8 +1137,9 @@ def _mid_fourier_enum(tier, shard, nshards):
                     "rational step (cross-checked against long double on 2000 instants), tolerance (1e-9 + 8 eps max m)*sum|c|; forced "
                     "incommensurate lengths (C14-KF1, unchanged matcher): closed form at i*npts*dt/len(output), 1e-9*sum|c|",
              exhaustive_note="all listed (length, ratio, even) combinations", quick_shards=4,
-             require={"refine": 0.2, "decimate": 0.3, "same": 0.15, "commensurate": 0.4, "refine-commensurate": 0.12,
-                      "decimate-commensurate": 0.2, "len=prime": 0.03, "len=power-of-two": 0.03, "not-even": 0.4, "even": 0.4},
+             require={"refine": 0.2, "decimate": 0.3, "same": 0.12, "commensurate": 0.4, "refine-commensurate": 0.12,
+                      "decimate-commensurate": 0.15, "len=prime": 0.03, "len=power-of-two": 0.03, "not-even": 0.35, "even": 0.35,
+                      "req=refine,k==ref": 0.15, "req=decimate,k==ref": 0.2, "k>80": 0.04},
              min_nontrivial=0.5)
 def mid_range_fourier(case, ctx):
     n = int(case["npts"])
@@ -922,7 +1184,7 @@ def _mid_history_enum(tier, shard, nshards):
                      {"target": second, "even": e, "pre": None}]
             if i % nshards == shard:
                 yield {"which": which, "npts": int(npts), "dt": float(dt), "steps": steps, "seed": int(_hh(key, "seed") % (2 ** 31 - 1)),
-                       "form": FORMS[_hh(key, "form") % 3]}
+                       "form": FORMS[_hh(key, "form") % len(FORMS)]}
             i += 1
 
 
@@ -958,7 +1220,12 @@ def mid_range_history(case, ctx):
     asig = ctx.lib(eqsig.AccSignal, recs[0][0], dt)
     for j, step in enumerate(case["steps"]):
         if step["pre"] == "read":
-            ctx.lib(lambda: (asig.fa_spectrum, asig.velocity))
+            # plain reads: what they return (or raise) is the business of other properties; here they only put the object into the
+            # state 'spectrum and motion series cached'
+            try:
+                asig.fa_spectrum, asig.velocity  # noqa
+            except Exception:  # noqa
+                ctx.cls("read-raised")
         elif step["pre"] == "reset":
             cur = 1
             ctx.lib(asig.reset_values, recs[1][0])
